@@ -6,7 +6,7 @@ From NDB Require Import Conc.Sched Conc.Handles Conc.Handles_proofs.
 Import ListNotations.
 
 (* For any number of handles (same or different processes), any operation lists
-   (open / commit / compact / close in any order, repeated) and EVERY interleaving:
+   (open / commit / compact / close / offline tool = vacuum or bulk load, in any order, repeated) and EVERY interleaving:
    (1) at most one handle is open, (2) every write reached the files while its writer
    held the lock, (3) the results form the history of a single handle that is opened and
    closed repeatedly; every other open was refused and operated on nothing. *)
@@ -33,3 +33,12 @@ Proof.
   destruct nolock_not_single_handle as (A & B & _). exact (conj A B).
 Qed.
 Print Assumptions C10_nolock_refuted.
+
+(* regression witness for the offline tools (vacuum_in_place, BulkLoader) that did not take the lock: a vacuum
+   runs while a handle is open and writing *)
+Definition C10_offline_nolock_refuted_statement : Prop :=
+  exists progs sched,
+    single_handle_history (results (Sched.shared (hrun false sched (hinit progs)))) = false.
+Theorem C10_offline_nolock_refuted : C10_offline_nolock_refuted_statement.
+Proof. exists [[HOpen; HCommit 1%Z]; [HOffline]], [0; 1; 0]. exact nolock_offline_under_open_handle. Qed.
+Print Assumptions C10_offline_nolock_refuted.
